@@ -8,10 +8,12 @@
    further proved that the simultaneous application equals applying the gates one after the other
    (matrix products being associative) and hence that the product of the emitted matrices, later
    layers multiplying from the left, is the circuit's unitary: the gates embedded on the qubits they
-   name, multiplied in program order.  Unitarity of each emitted matrix and the software simulation
-   are compared numerically on every generated circuit, not proved. *)
+   name, multiplied in program order.  With a conjugation on the coefficients (additive, multiplicative,
+   fixing 0 and 1) every emitted matrix is unitary (M M* = M* M = 1) whenever the gates are, and the
+   software simulation (the state vector multiplied by every emitted matrix in turn) maps every basis
+   state to the corresponding column of that unitary. *)
 From Coq Require Import List Arith Bool ZArith.
-From BM Require Import Front.Quantum Front.Cyclo8 Front.QuantumCheck Proofs.QuantumProofs Proofs.QuantumPlace Proofs.QuantumLayer Proofs.QuantumSeq.
+From BM Require Import Front.Quantum Front.QuantumSim Front.Cyclo8 Front.QuantumCheck Proofs.QuantumProofs Proofs.QuantumPlace Proofs.QuantumLayer Proofs.QuantumSeq Proofs.QuantumUnitary.
 Import ListNotations.
 
 Theorem compiled_layer_is_the_simultaneous_application_of_its_gates :
@@ -62,6 +64,71 @@ Proof.
 Qed.
 Print Assumptions product_of_the_emitted_matrices_is_the_circuit_unitary.
 
+
+(* each emitted matrix is unitary: M M* = M* M = 1 on all basis states, when every gate of the circuit is *)
+Theorem every_emitted_matrix_is_unitary :
+  forall (K : Type) (k0 k1 : K) (kadd kmul : K -> K -> K) (kconj : K -> K),
+  (forall a, kadd k0 a = a) -> (forall a, kadd a k0 = a) ->
+  (forall a b c, kadd a (kadd b c) = kadd (kadd a b) c) -> (forall a b, kadd a b = kadd b a) ->
+  (forall a, kmul k1 a = a) -> (forall a, kmul a k1 = a) ->
+  (forall a, kmul k0 a = k0) -> (forall a, kmul a k0 = k0) ->
+  (forall a b c, kmul a (kmul b c) = kmul (kmul a b) c) -> (forall a b, kmul a b = kmul b a) ->
+  (forall a b c, kmul a (kadd b c) = kadd (kmul a b) (kmul a c)) ->
+  kconj k0 = k0 -> kconj k1 = k1 ->
+  (forall a b, kconj (kadd a b) = kadd (kconj a) (kconj b)) -> (forall a b, kconj (kmul a b) = kmul (kconj a) (kconj b)) ->
+  forall (n : nat) (c : list (qop K)), 0 < n -> Forall (fun o => op_wf K n o = true) c ->
+  Forall (fun o => unitary K k0 k1 kadd kmul kconj (nq (gate o)) (gate o)) c ->
+  forall ms, compile K k0 k1 kmul n c = Some ms ->
+  Forall (fun M => nq M = n /\
+    (forall i j, length i = n -> length j = n ->
+       ent (mmul K k0 kadd kmul M (dagger K kconj M)) i j = ent (ident K k0 k1 n) i j) /\
+    (forall i j, length i = n -> length j = n ->
+       ent (mmul K k0 kadd kmul (dagger K kconj M) M) i j = ent (ident K k0 k1 n) i j)) ms.
+Proof.
+  intros K k0 k1 kadd kmul kconj A1 A2 A3 A4 M1 M2 M3 M4 M5 M6 D C0 C1 CA CM n c Hn Hwf HU ms Hc.
+  assert (H : Forall (unitary K k0 k1 kadd kmul kconj n) ms) by (eapply compiled_matrices_are_unitary; eassumption).
+  eapply Forall_impl; [|exact H]. intros M [[HnM [_ E1]] [_ [_ E2]]]. auto.
+Qed.
+Print Assumptions every_emitted_matrix_is_unitary.
+
+(* the software simulation of the circuit maps every basis state to that unitary's column *)
+Theorem software_simulation_maps_basis_states_to_columns_of_the_unitary :
+  forall (K : Type) (k0 k1 : K) (kadd kmul : K -> K -> K),
+  (forall a, kadd k0 a = a) -> (forall a, kadd a k0 = a) ->
+  (forall a b c, kadd a (kadd b c) = kadd (kadd a b) c) -> (forall a b, kadd a b = kadd b a) ->
+  (forall a, kmul k1 a = a) -> (forall a, kmul a k1 = a) ->
+  (forall a, kmul k0 a = k0) -> (forall a, kmul a k0 = k0) ->
+  (forall a b c, kmul a (kmul b c) = kmul (kmul a b) c) -> (forall a b, kmul a b = kmul b a) ->
+  (forall a b c, kmul a (kadd b c) = kadd (kmul a b) (kmul a c)) ->
+  forall (n : nat) (c : list (qop K)), 0 < n -> Forall (fun o => op_wf K n o = true) c ->
+  exists ms, compile K k0 k1 kmul n c = Some ms /\
+    forall i j, length i = n -> length j = n ->
+      run_sim K k0 kadd kmul ms (basis K k0 k1 j) i = ent (u_ref K k0 k1 kadd kmul n c) i j.
+Proof.
+  intros K k0 k1 kadd kmul A1 A2 A3 A4 M1 M2 M3 M4 M5 M6 D n c Hn Hwf.
+  eapply simulated_basis_state_is_a_column_of_the_unitary; eassumption.
+Qed.
+Print Assumptions software_simulation_maps_basis_states_to_columns_of_the_unitary.
+
+(* and the product of unitary matrices is unitary, so is the whole circuit's *)
+Theorem product_of_unitaries_is_unitary :
+  forall (K : Type) (k0 k1 : K) (kadd kmul : K -> K -> K) (kconj : K -> K),
+  (forall a, kadd k0 a = a) -> (forall a, kadd a k0 = a) ->
+  (forall a b c, kadd a (kadd b c) = kadd (kadd a b) c) -> (forall a b, kadd a b = kadd b a) ->
+  (forall a, kmul k1 a = a) -> (forall a, kmul a k1 = a) ->
+  (forall a, kmul k0 a = k0) -> (forall a, kmul a k0 = k0) ->
+  (forall a b c, kmul a (kmul b c) = kmul (kmul a b) c) -> (forall a b, kmul a b = kmul b a) ->
+  (forall a b c, kmul a (kadd b c) = kadd (kmul a b) (kmul a c)) ->
+  kconj k0 = k0 -> kconj k1 = k1 ->
+  (forall a b, kconj (kadd a b) = kadd (kconj a) (kconj b)) -> (forall a b, kconj (kmul a b) = kmul (kconj a) (kconj b)) ->
+  forall n A B, unitary K k0 k1 kadd kmul kconj n A -> unitary K k0 k1 kadd kmul kconj n B ->
+  unitary K k0 k1 kadd kmul kconj n (mmul K k0 kadd kmul A B).
+Proof.
+  intros K k0 k1 kadd kmul kconj A1 A2 A3 A4 M1 M2 M3 M4 M5 M6 D C0 C1 CA CM n A B.
+  eapply unitary_mmul; eassumption.
+Qed.
+Print Assumptions product_of_unitaries_is_unitary.
+
 (* layering loses nothing and keeps the order *)
 Theorem layering_keeps_every_line : forall K (c : list (qop K)),
   concat (circuit_layers K c) = c.
@@ -108,3 +175,18 @@ Example a_two_layer_circuit :
                ent (u_ref Z 0%Z 1%Z Z.add Z.mul 3 c) [false; true; true] [false; false; false] = 1%Z
   | None => False end.
 Proof. split; [repeat constructor|]. vm_compute. auto. Qed.
+
+(* the unitarity hypotheses are met: over the integers (conjugation = identity) the two gates above are
+   orthogonal, the three-line circuit compiles, and the simulated basis state |000> ends in |011> *)
+Fact zgates_unitary :
+  unitary Z 0%Z 1%Z Z.add Z.mul (fun x => x) 2 zgate2 /\ unitary Z 0%Z 1%Z Z.add Z.mul (fun x => x) 1 zgate1.
+Proof.
+  split; (split; (split; [reflexivity|]; split; [reflexivity|]; intros i j Hi Hj;
+    repeat (destruct i as [|[] i]; try discriminate Hi); repeat (destruct j as [|[] j]; try discriminate Hj); reflexivity)).
+Qed.
+Example a_simulated_basis_state :
+  let c := [mkOp [2; 0] zgate2; mkOp [1] zgate1; mkOp [2] zgate1] in
+  match compile Z 0%Z 1%Z Z.mul 3 c with
+  | Some ms => run_sim Z 0%Z Z.add Z.mul ms (basis Z 0%Z 1%Z [false; false; false]) [false; true; true] = 1%Z
+  | None => False end.
+Proof. vm_compute. reflexivity. Qed.
